@@ -159,6 +159,15 @@ def hy_def(sig, via):
         return "(fn %s (setv _hidden None) (del _hidden) (locals))" % s
     if via == "defn-async":
         return "(defn :async F %s (locals))\nF" % s
+    if via in ("defn-let", "fn-let"):
+        # the function is defined inside a let that binds every pooled name: its parameters shadow the let's names, so the
+        # body, which reads each parameter by name, must see the arguments (Python: return locals())
+        names = [p[0] for p in sig["posonly"] + sig["args"] + sig["kwonly"]] + [n for n in (sig["rest"], sig["kwargs"]) if n and n != "*"]
+        body = "{%s}" % " ".join('"%s" %s' % (n, n) for n in dict.fromkeys(names))
+        binds = " ".join('%s "LET"' % n for n in NAMES + ["r", "k", "args", "kwargs", "rest"])
+        if via == "defn-let":
+            return "(let [%s] (defn F %s %s))\nF" % (binds, s, body)
+        return "(let [%s] (fn %s %s))" % (binds, s, body)
     raise ValueError(via)
 
 
@@ -488,7 +497,7 @@ def strategies():
                 i = draw(st.integers(0, len(c) - 2))
                 c[i], c[i + 1] = c[i + 1], c[i]
             calls.append(c[:7])
-        via = draw(st.sampled_from(["defn", "defn", "fn", "fn", "fn-def", "defn-async"]))
+        via = draw(st.sampled_from(["defn", "defn", "fn", "fn", "fn-def", "defn-async", "defn-let", "fn-let"]))
         return dict(kind="binding", sig=s, via=via, calls=calls)
 
     text = st.sampled_from(["doc", "a b", "", "x", "two words"])
